@@ -27,11 +27,14 @@ from numdifftools import finite_difference as fdm
 FUNCS = {'exp': np.exp, 'sinpoly': lambda t: np.sin(t) + t ** 3, 'rat': lambda t: t * t / (1 + t * t)}
 def hx(v):
     return '%%x' %% struct.unpack('<Q', struct.pack('<d', float(v)))[0]
+INITIAL = {k: np.array(v, copy=True) for k, v in fdm.FD_RULES.items()}    # the cache as a fresh interpreter has it
 for line in sys.stdin:
     req = json.loads(line)
     fdm.FD_RULES.clear()
-    d = getattr(nd, req['cls'])(FUNCS[req['f']], n=req['n'], method=req['method'], order=req['order'], full_output=True) if req['cls'] == 'Derivative' \
-        else getattr(nd, req['cls'])(FUNCS[req['f']], method=req['method'], order=req['order'], full_output=True)
+    fdm.FD_RULES.update({k: np.array(v, copy=True) for k, v in INITIAL.items()})
+    kw = {'step_ratio': req['step_ratio']} if req.get('step_ratio') else {}
+    d = getattr(nd, req['cls'])(FUNCS[req['f']], n=req['n'], method=req['method'], order=req['order'], full_output=True, **kw) if req['cls'] == 'Derivative' \
+        else getattr(nd, req['cls'])(FUNCS[req['f']], method=req['method'], order=req['order'], full_output=True, **kw)
     val, info = d(np.asarray(req['x']))
     print(json.dumps([[hx(v) for v in np.ravel(val)], [hx(v) for v in np.ravel(info.error_estimate)], [hx(v) for v in np.ravel(info.final_step)],
                       [int(v) for v in np.ravel(info.index)]]))
@@ -72,16 +75,29 @@ def run(ctx):
         fdm.FD_RULES.clear()
         objs, toks, impl_trace = [], [], []
         length = rng.randint(3, 12)
+        # every third sequence is "paired": its objects share (method, n, order) and differ only in the step ratio, and nothing but
+        # constructions and calls happens, so that two configurations compete for what could be one cache entry
+        paired = seq_i % 3 == 2
+        pm = rng.choice(['central', 'forward', 'backward', 'complex'])
+        pn, po = rng.randint(1, 4), rng.randint(1, 6)
         for step_i in range(length):
             kind = rng.choice(['C', 'K', 'K', 'K', 'N', 'O', 'M', 'S', 'X']) if objs else 'C'
+            if paired:
+                kind = 'C' if len(objs) < 2 else rng.choice(['K', 'K', 'K', 'C'])
             if kind == 'C' and len(objs) < 5:
                 m = rng.choice(['central', 'forward', 'backward', 'complex', 'multicomplex'])
                 n = rng.randint(1, 2 if m == 'multicomplex' else 4)
                 o = rng.randint(1, 6)
                 fname = rng.choice(list(FUNCS))
-                d = nd.Derivative(FUNCS[fname], n=n, method=m, order=o, full_output=True)
-                objs.append({'d': d, 'f': fname})
-                toks.append('C,%s,%d,%d,1,-' % (m, n, o))
+                # an explicit step ratio in half of the constructions: ratios that share an integer part or differ in the last bits
+                sr = rng.choice([None, None, None, 2.0, 2.5, 2.25, 1.6, 1.2, 1.25, 3.0, 3.5])
+                if paired:
+                    m, n, o = pm, pn, po
+                    sr = rng.choice([None, 2.0, 2.5, 2.25, 1.6, 1.2, 1.25, 1.75])
+                kw = {} if sr is None else {'step_ratio': sr}
+                d = nd.Derivative(FUNCS[fname], n=n, method=m, order=o, full_output=True, **kw)
+                objs.append({'d': d, 'f': fname, 'sr': sr})
+                toks.append('C,%s,%d,%d,1,%s' % (m, n, o, '-' if sr is None else q2s(Fraction(make_exact(sr)))))
                 impl_trace.append((sorted(fdm.FD_RULES), None))
                 continue
             if kind == 'C':
@@ -102,7 +118,8 @@ def run(ctx):
                 st = d.step._state
                 toks.append('K,%d,x%d' % (i, len(toks)))
                 impl_trace.append((sorted(fdm.FD_RULES), (str(st.method), int(st.n), int(st.order))))
-                requests.append({'cls': 'Derivative', 'f': objs[i]['f'], 'n': int(d.n), 'method': d.method, 'order': int(d.order), 'x': x})
+                requests.append({'cls': 'Derivative', 'f': objs[i]['f'], 'n': int(d.n), 'method': d.method, 'order': int(d.order), 'x': x,
+                                 'step_ratio': getattr(d.step, '_step_ratio', None)})
                 results.append(pack(val, info))
                 ctx.tried((seq_i, step_i))
             elif kind == 'N':
